@@ -83,9 +83,14 @@ def gen_proto_cases(rng, tier):
 
 
 def gen_capacity_cases(rng, tier):
-    """prototypes at the limits of what fits into one data packet"""
+    """prototypes at the limits of what fits into one data packet; the sequences with tens of thousands
+    of records end without the top-level finalize (their XML alone is megabytes, and the list-based
+    page model is quadratic in the file size)"""
     cases = []
     xyz = [("x", "D"), ("y", "D"), ("z", "D")]
+    def seq_pc(rng, proto, npts):
+        calls = [("NEW", "file-guid"), ("EXT",) + EXT_OK, ("PC", "pc-guid", proto)] + pts_for(rng, proto, npts) + [("PFIN",), ("PDROP",)]
+        return calls + ([("FIN",)] if len(proto) <= 2100 else [])
     def filler(n, ty):
         return [(("u", "ext", "a%d" % k), ty) for k in range(n)]
     # n double records: 88 n <= 520232  <=>  n <= 5911
@@ -156,6 +161,13 @@ def gen_value_cases(rng, tier):
                                  (0, -1, 0x7ff0000000000000, -1, 0), (-1, 0, 0xfff0000000000000, 0, -1), (1, 1, 0x7ff8000000000000, 1, 0),
                                  ((1 << 53) + 1, -(1 << 53) - 1, 0x0000000000000001, 5, -1))]
     cases.append(("value:extremes", [("NEW", "g"), ("PC", "pc", proto)] + [("PT", p) for p in pts] + std_tail()))
+    # duplicate index attribute whose second record is not an integer: the rule check looks at the first
+    # record of a name, the bounds loop at every record (Props/C10.v: C10_err_is_noop_refuted)
+    for nm, extra in (("row", []), ("col", []), ("ri", [("rc", "I/0/3")])):
+        for ty2, v2 in (("D", "d0000000000000000"), ("F", "f00000000"), ("S/0/9/3ff0000000000000/0000000000000000", "s2")):
+            proto = [("x", "D"), ("y", "D"), ("z", "D")] + extra + [(nm, "I/0/9"), (nm, ty2)]
+            pt = [ONE, TWO, HALF] + ["i1"] * len(extra) + ["i3", v2]
+            cases.append(("value:duplicate-index-mistyped", [("NEW", "g"), ("PC", "pc", proto), ("PT", pt), ("PT", pt)] + std_tail()))
     # min > max: no value can be accepted
     proto = [("x", "D"), ("y", "D"), ("z", "D"), ("in", "I/5/1")]
     cases.append(("value:min-gt-max", [("NEW", "g"), ("PC", "pc", proto), ("PT", [ONE, ONE, ONE, "i3"]), ("PT", [ONE, ONE, ONE, "i5"]),
